@@ -314,7 +314,13 @@ static Agg* g_agg = nullptr;
 inline void print_result(uint64_t seed, const Workload& w, const Result& res, const sim::RunStats& st, int faults_on) {
     if (g_agg && res.ok) {
         g_agg->add(res, st, faults_on);
-        if (g_agg->runs >= 1000) g_agg->flush();
+        // a line at least every few seconds: the orchestrator's watchdog takes silence for a hang
+        static double last_flush = 0;
+        double t = now_s();
+        if (g_agg->runs >= 1000 || t - last_flush > 5.0) {
+            g_agg->flush();
+            last_flush = t;
+        }
         return;
     }
     std::string s;
